@@ -14,16 +14,17 @@ CONTRACTS = ['bitcoinlib.scripts.Stack.' + o for o in _OPS] + [
     'bitcoinlib.scripts.Stack.op_checksig', 'bitcoinlib.scripts.Stack.op_checksigverify'] + [
     'bitcoinlib.scripts.Stack.%s[n%d-m%d]' % (o, n, m) for n in range(4) for m in range(n + 1) for o in ('op_checkmultisig', 'op_checkmultisigverify')]
 LEVEL = 'proof'
-LEVEL_TEXT = ('Each of 53 Stack.op_* methods and encode_num/decode_num is verified, for stacks of ANY depth holding byte strings of ANY '
+LEVEL_TEXT = ('Each of 55 Stack.op_* methods and encode_num/decode_num is verified, for stacks of ANY depth holding byte strings of ANY '
               'length, against the consensus effect of the opcode transcribed from the reference interpreter (spec/script.py): same final '
-              'stack, same fail/success. 21 deviations found that way are open findings (pinned exactly; any other deviation is a violation). '
+              'stack, same fail/success (OP_VERIFY / OP_IFDUP: top item of up to 9 bytes; longer items natively). 10 deviations found that way are open findings, all asserted by the '
+              'repository tests (pinned exactly; any other deviation is a violation); 16 further ones were repaired in /repo. '
               'PICK/ROLL (symbolic stack positions), IF/NOTIF/ELSE/ENDIF expansion and the Script.evaluate dispatch loop are only covered by '
               'bounded stand-ins (exhaustive small scripts against a reference interpreter) and are not part of the proof claim; '
               'CLTV and CSV are proved against BIP65 / BIP112 (both were repaired). CHECKSIG / CHECKSIGVERIFY (any stack) and CHECKMULTISIG / CHECKMULTISIGVERIFY (one case per n <= 3, m <= n; labelled bounded) are verified for their stack effect and signature / key matching order with an ABSTRACT signature check (Signature.parse_bytes / verify replaced by an uninterpreted predicate: an assumed model, listed).')
 LEVEL_NOTE = ('Trusted: pyvc VC generator and Python semantics (DESIGN §2.10); z3/cvc5; spec/script.py as the statement of consensus; hash functions '
               'as uninterpreted functions; @opaque spec functions (script_num_decode, cast_to_bool) are abstract at call sites, their stated '
               'facts are proved as lemma contracts. Exceptions count as FAIL exactly as Script.evaluate maps them.')
-NOT_COVERED = ['signature encodings inside scripts (empty signature, non-DER / compact signatures, hash types other than ALL) and multisig counts that are negative, above 20 or m > n',
+NOT_COVERED = ['signature encodings inside scripts and multisig count edge cases as proofs (native harness bounded/c19_sigops.py with real signatures only); hash types other than ALL in scripts',
                'Script.evaluate dispatch, IF/NOTIF expansion, PICK, ROLL: bounded stand-ins only']
 TRUSTED = ['spec/script.py (consensus oracle, transcribed from interpreter.cpp)', 'sha256/sha1/ripemd160 as uninterpreted functions',
            'pyvc engine']
